@@ -83,14 +83,22 @@ def Exceptions : List Row := [
   -- (namespace, localpart)", odf/element.py): a keyword cannot name an arbitrary attribute.
   ⟨.attrs, n!"math:math", STAR⟩,
   ⟨.attrs, n!"xforms:model", STAR⟩,
-  -- XForms elements that are not declared by the ODF schema (the content of xforms:model is
-  -- `<anyName/>`), but for which odf/xforms.py ships factories (Bind, Instance).  They have no
-  -- table rows, so nothing is checked below them.
-  ⟨.children, n!"xforms:bind", STAR⟩,
-  ⟨.children, n!"xforms:instance", STAR⟩
+  -- XForms elements that no declaration of the ODF schema names (they live in the `<anyName/>` island below
+  -- xforms:model, so any attribute is permitted on them), for which odf/xforms.py ships factories (Bind, Instance).
+  -- They have no allowed_attributes row; as for math:math / xforms:model above, attributes go by (namespace, localpart).
+  ⟨.attrs, n!"xforms:bind", STAR⟩,
+  ⟨.attrs, n!"xforms:instance", STAR⟩
 ]
 
 def KnownFindings : List Row := [
+  -- Elements that no declaration names occur in the schema's `<anyName/>` islands (content of math:math,
+  -- xforms:model, foreign metadata), whose content is `mixed` / `<text/>`: character data is permitted.  addText /
+  -- addCDATA with checks on consult allows_text, which cannot list them, and raise IllegalText — `<mi>x</mi>` cannot be
+  -- built through the checked API.  `*` stands for every such element (the sweep probes MathML / XForms-instance /
+  -- foreign-namespace names); the two below are the ones the tables know because odf/xforms.py has factories for them.
+  ⟨.text, n!"*", NOITEM⟩,
+  ⟨.text, n!"xforms:bind", NOITEM⟩,
+  ⟨.text, n!"xforms:instance", NOITEM⟩,
   -- draw:concave is required in both alternatives of the schema's <choice>; the table does not list it, and
   -- tests/testlengths.py::test_calls / tests/teststyleref.py::testCalls pin the bare call draw.RegularPolygon().
   ⟨.required, n!"draw:regular-polygon", n!"draw:concave"⟩
